@@ -301,6 +301,19 @@ fn gen(prop: &str, tier: &str, seed: u64) -> Vec<String> {
         }
     }
     let _ = n_pairs;
+    // large plaintexts in one write, right password (and one wrong one): every writer kind x cipher x mode, stored and zstd
+    for kind in ["builder", "write_file", "solid_builder", "solid_archive", "solid_write_file"] {
+        for (enc, mode) in [(1u8, 0u8), (1, 1), (2, 0), (2, 1)] {
+            if !thorough && r.chance(1, 2) {
+                continue;
+            }
+            let comp = *r.pick(&[0u8, 0, 2]);
+            out.push(format!("pair\t{}+big\t{}\t{}\t{}\t{}\t{}\t{}\tbig", kind, comp, enc, mode, kdf_text(&cheap[0]), hex(b"big password"), hex(b"big password")));
+            if r.chance(1, 4) {
+                out.push(format!("pair\t{}+big\t{}\t{}\t{}\t{}\t{}\t{}\tbig", kind, comp, enc, mode, kdf_text(&cheap[1]), hex(b"big password"), hex(b"big passwore")));
+            }
+        }
+    }
     // (c) the KDF parameter grid (every value a writer may record), right and wrong password
     let ms: &[Option<u32>] = if thorough { &[Some(8), Some(64), Some(4096), None] } else { &[Some(8), Some(64), Some(4096)] };
     for t in [Some(1u32), Some(2), Some(3)] {
@@ -780,9 +793,12 @@ fn run(c: &Case, oracle: &mut Vec<String>) -> String {
         }
         "pair" => {
             // `<writer>+empty`: the plaintext is empty (an entry with nothing to decrypt must still ask for the key)
-            let (kind, pt): (String, &'static [u8]) = match c.args[0].strip_suffix("+empty") {
-                Some(k) => (k.to_string(), b""),
-                None => (c.args[0].to_string(), PT),
+            // `<writer>+big`: 200 001 bytes in ONE write (a sink below the cipher that takes a write only in part:
+            // seeded C16-7, the CTR writer then encrypts the re-submitted tail a second time)
+            let (kind, pt): (String, &'static [u8]) = match (c.args[0].strip_suffix("+empty"), c.args[0].strip_suffix("+big")) {
+                (Some(k), _) => (k.to_string(), b""),
+                (_, Some(k)) => (k.to_string(), Box::leak((0..200_001u32).map(|i| (i.wrapping_mul(2654435761) >> 13) as u8).collect::<Vec<u8>>().into_boxed_slice())),
+                _ => (c.args[0].to_string(), PT),
             };
             let cfg = parse_cfg(c.args[1], c.args[2], c.args[3], c.args[4]);
             let pww = String::from_utf8(unhex(c.args[5]).unwrap_or_default()).unwrap_or_default();
